@@ -153,6 +153,31 @@ def sweep(tier, seed=0):
                         break
             if len(fails) >= 40:
                 break
+    # right-hand sides that hold their variables inside lists (and lists inside lists): the result of a top-level
+    # rewrite is the rhs with the bindings substituted everywhere
+    def _inst(t, sb):
+        if isinstance(t, (list, tuple)):
+            return type(t)(_inst(a_, sb) for a_ in t)
+        try:
+            return sb[t] if t in sb else t
+        except TypeError:
+            return t
+
+    if sum(1 for x in fails if not x.args.get("arity_mismatch")) < 5:
+        for lhs, rhs in [((f, "x", "y"), (g, ["x", ["y"]])), ((f, "x", "y"), ["y", "x"]), ((g, "x"), (h, "x", [("x",)])), ((f, "x", "x"), [["x"], 0])]:
+            rs = RuleSet(RewriteRule(lhs, rhs, VARS))
+            for term in [t for t in tms if isinstance(t, tuple)][:: 2 if tier == "quick" else 1]:
+                cases += 1
+                m = match(lhs, term, VARS, {})
+                try:
+                    got = rs.rewrite(term, strategy="top_level")
+                    want = term if m is None else _inst(rhs, m)
+                    msg = None if repr(got) == repr(want) else f"top-level rewrite of {term!r} with rhs {rhs!r} returned {got!r}, the rhs with the bindings {m!r} substituted is {want!r}"
+                except Exception as e:  # noqa
+                    msg = f"{type(e).__name__}: {e}"
+                if msg:
+                    fails.append(rtc.Failure("RuleSet.iter_matches", {"rules": [repr(lhs) + " -> " + repr(rhs)], "term": repr(term), "rhs_with_lists": True}, "ensures", "C51-sound-and-complete", msg))
+                    break
     # a RuleSet that grows through RuleSet.add, with rewrites in between: after every add the answers are those of a
     # RuleSet built from the same rules at once (nothing remembered from before the add may survive)
     if sum(1 for x in fails if not x.args.get("arity_mismatch")) < 5:
